@@ -108,7 +108,7 @@ C04(e) ==
 
 C05(e) ==
   e.ev = "benter" /\ e.p \notin skipP =>
-     /\ cfg.SyncRead => ~FreshBuilt(e.k)
+     /\ (cfg.SyncRead /\ At(lastRd, e.p, [c |-> "none", v |-> ""]).c # "beerr") => ~FreshBuilt(e.k)
      /\ now >= At(failUntil, e.k, 0)
 
 C06(e) ==
